@@ -64,6 +64,8 @@ def zip_archive_generator(
                     zinfo = zipfile.ZipInfo(filename=filename, date_time=date_time)
                     zinfo.compress_type = compression
                     zinfo.external_attr = _FILE_ATTR
+                    if tree.is_executable(tp):
+                        zinfo.external_attr |= 0o111 << 16
                     content = tree.get_file_text(tp)
                     zipf.writestr(zinfo, content)
                 elif ie.kind in ("directory", "tree-reference"):
